@@ -3,10 +3,11 @@ CONSTANTS
   N = 5
   Mul = 3
   Mod = 7
-  Hs = {0, 1, 2, 3}
-  Rs = {0, 1, 2}
-  Sums = {0, 1, 3, 7}
+  Hs = {0, 1, 2}
+  Rs = {0, 1}
+  Sums = {0, 1, 3}
   MaxSum = 0
+  FailSum = 1
   MaxFail = 3
   Sim = FALSE
 INVARIANTS Member ImplMatchesAbstract LocalIndependent NoRepeat
